@@ -2,6 +2,7 @@
 from __future__ import annotations
 
 import os
+import re
 from typing import Any, Dict, List
 
 from vlib import ref, sut_gotext as G
@@ -45,6 +46,24 @@ def from_go(t: Any, g: Any) -> Any:
     raise TypeError(t)
 
 
+def names_of_transitive_imports(g: File):
+    """Names that the files g imports (transitively) bind to a file which g does not bind under that name itself: a Go
+    reference `n.T` through such a name is the C10 known finding go-transitive-import-reference (the type is one g's schema
+    writes `b.c.T`, or one that -O mode inlines from a message of b)."""
+    own = {imp.bound_name: imp.file for imp in g.imports}
+    out = set()
+    for imp in g.imports:
+        for h in imp.file.all_files():
+            for inner in h.imports:
+                if own.get(inner.bound_name) is not inner.file:
+                    out.add(inner.bound_name)
+    return out
+
+
+class AmbiguousPackages(Exception):
+    """Two files of one schema bind the same name to different files; the evaluator's package table is flat."""
+
+
 def load_go(root: File, go_dir: str) -> Dict[str, Any]:
     """{basename: (gofile, evaluator)} for every file of the schema."""
     parsed = {}
@@ -53,7 +72,15 @@ def load_go(root: File, go_dir: str) -> Dict[str, Any]:
             parsed[g.basename] = G.parse_file(fh.read())
     out = {}
     for g in root.all_files():
-        imports = {imp.bound_name: parsed[imp.file.basename] for imp in g.imports}
+        # the evaluator resolves `pkg.Type` inside imported packages through the same flat table, so the packages that the
+        # imported files import themselves are given too; whether the file being evaluated imports a package it names is
+        # still checked by the evaluator (its own import list)
+        imports: Dict[str, Any] = {}
+        for h in g.all_files():
+            for imp in h.imports:
+                gf = parsed[imp.file.basename]
+                if imports.setdefault(imp.bound_name, gf) is not gf:
+                    raise AmbiguousPackages(imp.bound_name)
         out[g.basename] = (parsed[g.basename], G.GoEval(parsed[g.basename], imports=imports))
     return out
 
@@ -63,6 +90,9 @@ def judge_go_opt(ctx, root: File, go_dir: str, messages: List[Message], meta: Li
     res = ctx.res
     try:
         loaded = load_go(root, go_dir)
+    except AmbiguousPackages:
+        res.count("go_opt_skipped_ambiguous_package_names")
+        return
     except Exception as e:
         res.violation("go-opt-unparsable", f"Go -O output cannot be parsed: {type(e).__name__}: {str(e)[:300]}", wit)
         return
@@ -86,6 +116,12 @@ def judge_go_opt(ctx, root: File, go_dir: str, messages: List[Message], meta: Li
                 if got != want:
                     res.violation("go-opt-decode-values", f"{m.name} basis {mt.get('basis')}: Go -O Decode statements give other field values", {**w, "got": got, "expected": want})
         except G.EvalError as e:
+            q = re.search(r"package '(\w+)' not given in imports|: '(\w+)' is not imported|call not supported by the evaluator: (\w+)\.\w+\(", str(e))
+            if q and (q.group(1) or q.group(2) or q.group(3)) in names_of_transitive_imports(file_of(m)):
+                # -O inlines the fields of an imported message and names their types by the inner file's import name:
+                # the Go file does not compile (C10 known finding go-transitive-import-reference, reported there)
+                res.count("go_opt_excluded_known_C10_transitive_import")
+                continue
             res.violation("go-opt-eval-error", f"{m.name}: evaluating the Go -O statements failed (Go would reject or panic): {str(e)[:300]}", w)
             return
 
